@@ -79,8 +79,12 @@ def work(q_in: mp.Queue, q_out: mp.Queue, row_func):
             try:
                 row_func(row)
             except Exception as e:
-                print(pid, 'FAILED TO RUN row_func {}\n'.format(e))
-                pass
+                try:
+                    print(pid, 'FAILED TO RUN row_func {}\n'.format(e))
+                except Exception:
+                    # the report itself may fail (a message the console's encoding cannot show):
+                    # that must not end the worker, the row still goes on
+                    pass
             q_out.put(row)
     except Exception:
         pass
